@@ -115,6 +115,7 @@ pub struct Tokens {
     devnull: std::fs::File,
     pub by_fd: HashMap<RawFd, usize>,
     pub next: usize,
+    pub descending: bool,
 }
 
 impl Tokens {
@@ -132,11 +133,19 @@ impl Tokens {
         } else {
             f
         };
-        Tokens { devnull: f, by_fd: HashMap::new(), next: 1 }
+        Tokens { devnull: f, by_fd: HashMap::new(), next: 1, descending: false }
     }
     pub fn fresh(&mut self) -> (usize, RawFd) {
-        // SAFETY: dup of a valid descriptor
-        let fd = unsafe { libc::dup(self.devnull.as_raw_fd()) };
+        // descriptor NUMBERS carry no meaning: in `descending` mode later tokens get SMALLER numbers than earlier ones
+        // (as happens when the process frees a low number between two reads); otherwise the lowest free number
+        let fd = if self.descending {
+            let want = 600i32.saturating_sub(7 * self.next as i32).max(3);
+            // SAFETY: duplicating a valid descriptor to the lowest free number >= want
+            unsafe { libc::fcntl(self.devnull.as_raw_fd(), libc::F_DUPFD_CLOEXEC, want) }
+        } else {
+            // SAFETY: dup of a valid descriptor
+            unsafe { libc::dup(self.devnull.as_raw_fd()) }
+        };
         assert!(fd >= 0, "dup failed");
         let t = self.next;
         self.next += 1;
@@ -202,6 +211,8 @@ impl ConnDriver {
             rest: vec![],
             log: vec![],
         };
+        // every third connection hands out descriptor numbers in descending order
+        d.tokens.descending = rec.n_conn_new % 3 == 1;
         // every 64th connection is also stepped on the concrete-buffer model (lean/MicroHttp/Conn00.lean)
         let on = rec.n_conn_new % 64 == 0;
         rec.n_conn_new += 1;
